@@ -199,15 +199,27 @@ func init() {
 	reg("(*sync.Once).Do", func(fr *frame, args []Value) Value {
 		ex := fr.ex
 		o := ex.onceOf(args[0])
-		// Do holds an internal mutex while f runs: concurrent callers block until it returns
+		// Do holds an internal mutex while f runs: concurrent callers block until it returns.
+		// (No Go-level defer may perform scheduling operations here: engine panics that end the
+		// path unwind through this frame.)
 		ex.lockOp(fr, &o.mu, true)
-		defer func() {
-			ex.unlockOp(fr, &o.mu, true)
-		}()
 		if !o.done {
-			defer func() { o.done = true }()
-			ex.callValue(fr, args[1], nil)
+			func() {
+				defer func() {
+					if r := recover(); r != nil {
+						if _, ok := r.(targetPanic); ok {
+							// like the real Once: done is set and the mutex released even if f panics
+							o.done = true
+							ex.unlockOp(fr, &o.mu, true)
+						}
+						panic(r)
+					}
+				}()
+				ex.callValue(fr, args[1], nil)
+			}()
+			o.done = true
 		}
+		ex.unlockOp(fr, &o.mu, true)
 		return nil
 	})
 
@@ -303,6 +315,10 @@ func init() {
 	atomicInt("Uintptr", 64)
 
 	// ---- atomic.Pointer[T]: struct{_ [0]*T; _ noCopy; v unsafe.Pointer}; we keep a *Value in field v
+	regPtr := func(m string, f extFn) {
+		reg("(*sync/atomic.Pointer)."+m, f)
+		reg("(*sync/atomic.Pointer[T])."+m, f)
+	}
 	ptrCell := func(fr *frame, p Value) *Value {
 		a := p.(*Value)
 		if a == nil {
@@ -318,20 +334,20 @@ func init() {
 		}
 		return cell
 	}
-	reg("(*sync/atomic.Pointer).Load", func(fr *frame, args []Value) Value {
+	regPtr("Load", func(fr *frame, args []Value) Value {
 		return *ptrCell(fr, args[0])
 	})
-	reg("(*sync/atomic.Pointer).Store", func(fr *frame, args []Value) Value {
+	regPtr("Store", func(fr *frame, args []Value) Value {
 		*ptrCell(fr, args[0]) = args[1]
 		return nil
 	})
-	reg("(*sync/atomic.Pointer).Swap", func(fr *frame, args []Value) Value {
+	regPtr("Swap", func(fr *frame, args []Value) Value {
 		c := ptrCell(fr, args[0])
 		old := *c
 		*c = args[1]
 		return old
 	})
-	reg("(*sync/atomic.Pointer).CompareAndSwap", func(fr *frame, args []Value) Value {
+	regPtr("CompareAndSwap", func(fr *frame, args []Value) Value {
 		c := ptrCell(fr, args[0])
 		if (*c).(*Value) == args[1].(*Value) {
 			*c = args[2]
